@@ -7,7 +7,7 @@ G = None
 def register(progs, g):
     global G
     G = g
-    progs.update({'C17': prog_C17, 'C03': prog_C03, 'C16': prog_C16, 'C01': prog_C01, 'C02': prog_C02})
+    progs.update({'C17': prog_C17, 'C03': prog_C03, 'C16': prog_C16, 'C01': prog_C01, 'C02': prog_C02, 'C08': prog_C08, 'C09': prog_C09, 'C10': prog_C10, 'C15': prog_C15})
 
 
 def plain_diff(ops_path, a_path, b_path, limit=40):
@@ -159,3 +159,36 @@ def prog_C01(ctx):
 def prog_C02(ctx):
     fsm_part(ctx, ['C02'], ['event_dkg_master_key'])
     generic(ctx, ['Dc4bcVerif.Props.C02', 'Dc4bcVerif.Props.C02Fsm', 'Dc4bcVerif.Props.C01'], 'algdiff', 'alg', ['C02'], ALG_TRUSTED, ALG_RULE, cov_from_stats=alg_cov)
+
+
+NODE_TRUSTED = ['correspondence nodediff: a real BaseNodeService (LevelDB state, file board, real repositories) inside a real ceremony is fed every message through ProcessMessage, plus structure-aware mutations (altered payload, broken/empty/foreign signatures, renamed senders, foreign participant ids, replays under other events/rounds, junk) and answers through ProcessOperation/ApproveParticipation incl. altered, unknown, request-only and duplicated results; the compiled Lean node model gets the same inputs and must reproduce outcome, posted messages and the canonical node state after every step',
+                'oracle fields of the model, computed by the harness with the REAL functions and universally quantified in the theorems: JSON decoding of message data (types.FSMRequestFromMessage), ed25519 verification under every registered key, the result of threshold reconstruction, byte equality of submitted and stored operation payloads',
+                'modelled, not verified: encoding/json, ed25519, LevelDB, the md5 operation id (modelled by (round, payload) identity), wall-clock reads (an explicit input)']
+
+
+def node_cov(ctx, st):
+    ctx.cov.update(evaluations=st['Ops'], distinct_nontrivial=len(st.get('MutationHist') or {}) + len(st.get('OutcomeHist') or {}), exhaustive=False,
+                   genuine_messages=st['Genuine'], mutated_messages=st['Mutated'], accepted=st['Accepted'], rejected=st['Rejected'],
+                   panics=st['Panics'], operation_submissions=st['Execs'], scenarios=st['Scenarios'], mutation_histogram=st.get('MutationHist') or {},
+                   driver_notes=st.get('Notes') or [])
+    ctx.cov['input_histogram'] = st.get('OutcomeHist') or {}
+
+
+NODE_RULE = ('ceremonies (n,t) of the tier with one observed node; every message addressed to it is preceded/followed by sampled mutations of itself (all kinds in the thorough tier) and occasionally duplicated; '
+             'every operation of the observed node is answered with altered results first, then the genuine one, then a duplicate; distinct_nontrivial = distinct (mutation kind, outcome) and (message kind, outcome) pairs hit')
+
+
+def prog_C09(ctx):
+    generic(ctx, ['Dc4bcVerif.Props.C09'], 'nodediff', 'node', ['C09'], NODE_TRUSTED, NODE_RULE, cov_from_stats=node_cov)
+
+
+def prog_C10(ctx):
+    generic(ctx, ['Dc4bcVerif.Props.C10'], 'nodediff', 'node', ['C10'], NODE_TRUSTED, NODE_RULE, cov_from_stats=node_cov)
+
+
+def prog_C15(ctx):
+    generic(ctx, ['Dc4bcVerif.Props.C15'], 'nodediff', 'node', ['C15'], NODE_TRUSTED, NODE_RULE, cov_from_stats=node_cov)
+
+
+def prog_C08(ctx):
+    generic(ctx, ['Dc4bcVerif.Props.C08'], 'nodediff', 'node', ['C08'], NODE_TRUSTED, NODE_RULE, cov_from_stats=node_cov)
